@@ -39,6 +39,8 @@ PROP = [  # (keyword in commit subject, property, signature of the finding it re
  ("brightness accepted NaN", "C09", "ood-accepted:ColorFormat.brightness"), ("a:lumMod / a:lumOff", "C09", "reject-breaks-getter:_Color.brightness"),
  ("MSO_AUTO_SIZE.MIXED", "C09", "ood-accepted:TextFrame.auto_size"), ("refused Marker.size", "C09", "reject-breaks-getter:Marker.size"),
  ("refused slide_width / slide_height", "C09", "reject-breaks-getter:Presentation.slide_width / slide_height"), ("refused left / top / width / height", "C09", "reject-breaks-sibling:BaseShape / _InheritsDimensions left top width height"),
+ ("zeroed the other three", "C09", "frame:_InheritsDimensions.left->_InheritsDimensions.top; top->left; width->height; height->width"),
+ ("without p:sldSz", "C09", "accept-breaks-getter:Presentation.slide_width; accept-breaks-getter:Presentation.slide_height"),
  ("EMF images", "C15", "emf-stored-as-wmf"), ("TIFF without resolution", "C15", "tiff-without-resolution-sized-at-1dpi"),
 ]
 k = json.load(open(os.path.join(V, "known_findings.json")))
